@@ -90,6 +90,7 @@ type JobResult struct {
 	Models    map[string]int `json:"models_hit"`
 	Complete  bool           `json:"complete"`
 	Samples   []interface{}  `json:"samples,omitempty"`
+	ForkSites map[string]int `json:"fork_sites,omitempty"`
 
 	mu      sync.Mutex
 	pending int
@@ -422,6 +423,7 @@ func runPath(it *Interp, job *JobSpec, item workItem, sched *scheduler, res *Job
 	}
 	it.evalMemo = map[*Term]uint64{}
 	it.notes = map[string]Value{}
+	it.forkSites = map[string]int{}
 	it.newModels = nil
 	it.prefix, it.pos = item.prefix, 0
 	it.decisions = nil
@@ -552,12 +554,32 @@ func runPath(it *Interp, job *JobSpec, item workItem, sched *scheduler, res *Job
 	for k, v := range it.funcsHit {
 		res.Funcs[k] += v
 	}
+	if res.ForkSites == nil {
+		res.ForkSites = map[string]int{}
+	}
+	for k, v := range it.forkSites {
+		res.ForkSites[k] += v
+	}
 	for k, v := range it.modelsHit {
 		res.Models[k] += v
 	}
 	res.WallSec = time.Since(res.start).Seconds()
 	if verbose && res.Paths%200 == 0 {
 		fmt.Fprintf(os.Stderr, "[%s] paths=%d queries=%d\n", res.ID, res.Paths, res.Queries)
+		if res.Paths%2000 == 0 {
+			type kv struct {
+				k string
+				v int
+			}
+			var l []kv
+			for k, v := range res.ForkSites {
+				l = append(l, kv{k, v})
+			}
+			sort.Slice(l, func(a, b int) bool { return l[a].v > l[b].v })
+			for i := 0; i < len(l) && i < 8; i++ {
+				fmt.Fprintf(os.Stderr, "   fork site %s x%d\n", l[i].k, l[i].v)
+			}
+		}
 	}
 }
 
